@@ -117,3 +117,93 @@ Proof.
   rewrite Forall_forall in H. apply cmp_inherent_none. apply H.
   apply in_map_iff. exists o. split; auto.
 Qed.
+
+(* ---- trait mode, item level: an accepted block defines exactly items of the trait and every
+   required one; hence a stray item and a missing required item are always diagnosed ---- *)
+
+Definition same_item (a b : item) : Prop :=
+  ikind_eqb (i_kind a) (i_kind b) = true /\ String.eqb (i_name a) (i_name b) = true.
+
+Lemma no_leftovers (second : list item) :
+  (if existsb (fun i => ikind_eqb (i_kind i) IKConst) second then Some NotInTrait
+   else if existsb (fun i => ikind_eqb (i_kind i) IKType) second then Some NotInTrait
+   else if existsb (fun i => ikind_eqb (i_kind i) IKFn) second then Some NotInTrait
+   else None) = None -> second = [].
+Proof.
+  destruct second as [|s r]; [reflexivity|]. simpl.
+  destruct (i_kind s); simpl; try discriminate.
+  - destruct (existsb _ r); discriminate.
+  - destruct (existsb _ r); [discriminate|]. destruct (existsb _ r); discriminate.
+Qed.
+
+Lemma in_remove_or its k n s :
+  In s its -> In s (remove_item its k n) \/ (ikind_eqb (i_kind s) k = true /\ String.eqb (i_name s) n = true).
+Proof.
+  intro H. unfold remove_item.
+  destruct (ikind_eqb (i_kind s) k && String.eqb (i_name s) n) eqn:E.
+  - right. apply andb_true_iff in E. exact E.
+  - left. apply filter_In. split; [exact H|]. rewrite E. reflexivity.
+Qed.
+
+Lemma cmp_trait_none titems : forall second,
+  cmp_trait_items titems second = None ->
+  (forall s, In s second -> exists t, In t titems /\ same_item s t) /\
+  (forall t, In t titems -> i_default t = false -> exists s, In s second /\ same_item s t).
+Proof.
+  induction titems as [|t rest IH]; intros second H.
+  - simpl in H. apply no_leftovers in H. subst second. split; intros ? [].
+  - simpl in H. destruct (find_item second (i_kind t) (i_name t)) as [s0|] eqn:E.
+    + destruct (ikind_eqb (i_kind t) IKConst && negb (Nat.eqb (i_ngen t) (i_ngen s0))); [discriminate|].
+      destruct (IH _ H) as [H1 H2]. apply find_item_in in E. destruct E as (E1 & E2 & E3).
+      split.
+      * intros s Hs. destruct (in_remove_or _ (i_kind t) (i_name t) _ Hs) as [Hr|[K N]].
+        -- destruct (H1 _ Hr) as (t' & Ht' & Hsame). exists t'. split; [right; exact Ht'|exact Hsame].
+        -- exists t. split; [left; reflexivity|split; assumption].
+      * intros t' [Ht'|Ht'] Hd.
+        -- subst t'. exists s0. split; [exact E1|split; assumption].
+        -- destruct (H2 _ Ht' Hd) as (s & Hs & Hsame). exists s. split; [eapply remove_item_incl; eauto|exact Hsame].
+    + destruct (i_default t) eqn:Ed; [|discriminate].
+      destruct (IH _ H) as [H1 H2]. split.
+      * intros s Hs. destruct (H1 _ Hs) as (t' & Ht' & Hsame). exists t'. split; [right; exact Ht'|exact Hsame].
+      * intros t' [Ht'|Ht'] Hd; [subst t'; congruence|]. eauto.
+Qed.
+
+(* acceptance in trait mode means: every block is an impl of the trait with the trait's
+   unsafety, defines only items of the trait (same kind and name) and every required one *)
+Theorem trait_accepted_wellformed t impls :
+  validate_trait t impls = None ->
+  forall i, In i impls ->
+    header_ok t i /\
+    (forall s, In s (v_items i) -> exists ti, In ti (t_items t) /\ same_item s ti) /\
+    (forall ti, In ti (t_items t) -> i_default ti = false -> exists s, In s (v_items i) /\ same_item s ti).
+Proof.
+  unfold validate_trait. intro H.
+  destruct (first_some (map _ impls)) eqn:E1; [discriminate|].
+  apply first_some_none in E1. apply first_some_none in H.
+  rewrite Forall_forall in E1, H. intros i Hi. split.
+  - assert (Hh := E1 _ (in_map _ _ _ Hi)). cbv beta in Hh. unfold header_ok.
+    destruct (v_trait i) as [n|]; [|discriminate].
+    destruct (String.eqb (t_name t) n) eqn:En; [|discriminate]. apply String.eqb_eq in En. subst n.
+    simpl in Hh. destruct (Bool.eqb (t_unsafe t) (v_unsafe i)) eqn:Eu; [|discriminate].
+    apply Bool.eqb_prop in Eu. split; [reflexivity|symmetry; exact Eu].
+  - apply cmp_trait_none. apply H. apply in_map_iff. exists i. split; auto.
+Qed.
+
+(* a block with an item that is no item of the trait is rejected, wherever it stands *)
+Theorem stray_item_rejected t impls i s :
+  In i impls -> In s (v_items i) -> (forall ti, In ti (t_items t) -> ~ same_item s ti) ->
+  validate_trait t impls <> None.
+Proof.
+  intros Hi Hs Hno H. destruct (trait_accepted_wellformed t impls H i Hi) as (_ & H1 & _).
+  destruct (H1 _ Hs) as (ti & Hti & Hsame). exact (Hno _ Hti Hsame).
+Qed.
+
+(* a block that leaves out a required item of the trait is rejected *)
+Theorem missing_item_rejected t impls i ti :
+  In i impls -> In ti (t_items t) -> i_default ti = false ->
+  (forall s, In s (v_items i) -> ~ same_item s ti) ->
+  validate_trait t impls <> None.
+Proof.
+  intros Hi Hti Hd Hno H. destruct (trait_accepted_wellformed t impls H i Hi) as (_ & _ & H2).
+  destruct (H2 _ Hti Hd) as (s & Hs & Hsame). exact (Hno _ Hs Hsame).
+Qed.
